@@ -232,7 +232,12 @@ def check_props(prop_id, timeout=900):
     vfile = os.path.join(COQDIR, "theories", "props", prop_id + ".v")
     if not os.path.exists(vfile):
         return dict(ok=False, obligations=0, discharged=0, axioms={}, theorems=[], log="missing " + vfile)
-    if not os.path.exists(os.path.join(COQDIR, "Makefile")):
+    proj = os.path.join(COQDIR, "_CoqProject")
+    listed = open(proj).read() if os.path.exists(proj) else ""
+    have = []
+    for root, _, files in os.walk(os.path.join(COQDIR, "theories")):
+        have += [os.path.relpath(os.path.join(root, f), COQDIR) for f in files if f.endswith(".v")]
+    if not os.path.exists(os.path.join(COQDIR, "Makefile")) or any(h not in listed for h in have):
         subprocess.run(["bash", os.path.join(COQDIR, "..", "bin", "mkcoqproject")], check=True, cwd=COQDIR)
     vo = vfile + "o"
     if os.path.exists(vo):
